@@ -154,6 +154,7 @@ struct Ctx
   long opIndex = -1;
   void line(const std::string& l);
   void begin(long idx, const std::string& kind);
+  void phase(const std::string& name);
   void end(long idx, const std::string& digest);
   void violation(const std::string& sig, const std::string& detail);
   void count(const std::string& name, long n = 1);
